@@ -1,31 +1,4 @@
-"""Per-property configuration: Lean module, correspondence areas, oracles (independent direct
-checks of the property on the implementation's output), trusted base and assumptions."""
-import re
-
-def kv(line):
-    """parse 'stage k=v k=v ...' lines"""
-    parts = line.split(" ")
-    d = {"_": parts[0]}
-    for p in parts[1:]:
-        if "=" in p:
-            k, v = p.split("=", 1)
-            d[k] = v
-    return d
-
-def unhex(s):
-    return b"" if s in ("-", "none", "") else bytes.fromhex(s)
-
-# ------------------------------------------------------------------ C02
-def oracle_parse_total(case, impl):
-    """C02: the real parser must return (no panic, no hang) on every byte string."""
-    if impl.startswith("PANIC") or impl.startswith("TIMEOUT"):
-        return "query.New did not return normally: " + impl[:80]
-    return None
-
-COMMON_TRUST = [
-    "correspondence harness /verif/harness (Go, built from the current tree with -overlay exports) and its generators",
-    "Lean driver (lean_exe nvdriver) runs the same definitions the theorems are about",
-]
+from props.common import *
 
 # ------------------------------------------------------------------ C05 / C01 (socket level)
 def adv_size(payload):
@@ -100,8 +73,8 @@ def oracle_sock(case, impl):
             return "TCP reply has %d bytes, upstream answer had %d" % (len(rep), up)
     return None
 
-PROPS = {
-    "C05": dict(
+
+SPEC = dict(
         lean_module="NV.Props.C05",
         level_text="Kernel-checked theorems for every (advertised size, response length) pair: reply length <= max(512, advertised), "
                    "a cut always sets TC, a fitting answer keeps its length, TCP prefix exact; the truncation block and constants are "
@@ -111,20 +84,4 @@ PROPS = {
                     nontrivial=lambda c, i: len(i) > 8)],
         trusted=COMMON_TRUST + ["kernel UDP/TCP loopback delivery", "translator /verif/extract (constants, truncation block)"],
         assumptions=["advertised sizes above 65507 are outside the property's quantifier (a UDP datagram cannot carry them)"],
-    ),
-    "C02": dict(
-        lean_module="NV.Props.C02",
-        level_text="Termination of query.parse and of every dnsmessage loop it reaches is proved for all byte strings (fuel bound / "
-                   "Lean termination checker); the handler model always emits a reply; the model is tied to the real parser by a "
-                   "differential run over structured and malformed messages with a per-input deadline (hang/panic oracle).",
-        level_note="Trusted: Lean kernel; the correspondence harness and generator. Slice-bounds panics inside dnsmessage are excluded by the "
-                   "differential run (PANIC output), not by a theorem; goroutine scheduling is observed, not modelled.",
-        areas=[dict(name="parse", n_quick=20000, n_thorough=400000, shards_thorough=8,
-                    oracle=oracle_parse_total,
-                    nontrivial=lambda c, i: not i.startswith("query "))],
-        trusted=COMMON_TRUST + ["Go runtime: recover/defer, goroutine scheduling (deadline used as hang oracle)"],
-        assumptions=["socket layer and goroutine scheduling are not modelled; liveness of the daemon after hostile input is observed through the C01 socket harness"],
-    ),
-}
-
-NOT_CLAIMED = {}
+)
